@@ -497,8 +497,12 @@ def n_r4_post(p: Project, rep: Report):
     rep.unit("transports", len(snodes))
 
 
+_FOLD_PROJECT = None
+
+
 def _fold(expr, fn) -> Optional[str]:
-    """constant-fold a string expression (locals with a single constant assignment, +, %, .format, f-strings)"""
+    """constant-fold a string expression (locals with a single constant assignment, module-level string constants, +,
+    .format, f-strings)"""
     defs = local_defs(fn)
     if isinstance(expr, ast.Constant) and isinstance(expr.value, str):
         return expr.value
@@ -506,6 +510,9 @@ def _fold(expr, fn) -> Optional[str]:
         ds = defs.get(expr.id, [])
         if len(ds) == 1 and ds[0].kind == "assign":
             return _fold(ds[0].value, fn)
+        if not ds and _FOLD_PROJECT is not None and _FOLD_PROJECT.has_binding(CLIENT, expr.id):
+            v_ = _FOLD_PROJECT.resolve(CLIENT, expr.id)
+            return v_ if isinstance(v_, str) else None
         return None
     if isinstance(expr, ast.BinOp) and isinstance(expr.op, ast.Add):
         a, b = _fold(expr.left, fn), _fold(expr.right, fn)
@@ -543,6 +550,8 @@ def _fold(expr, fn) -> Optional[str]:
 
 
 def n_r5_headers(p: Project, rep: Report):
+    global _FOLD_PROJECT
+    _FOLD_PROJECT = p
     rep.rule("N-R5", "http_headers folds to Content-Type application/x-ofx, an Accept header that admits application/x-ofx (explicitly or by a wildcard range with non-zero quality), and User-Agent = self.useragent")
     ci = client_class(p)
     fn = ci.own_func("http_headers")
@@ -771,7 +780,27 @@ def n_r9_constructor_params(p: Project, rep: Report):
             unknown = True
         else:
             stored |= names
+    # a private method that stores whatever keywords it is given: self._store(**kw) with `for k, v in kw.items(): setattr(self, k, v)`
+    for c in own_nodes(fn):
+        if isinstance(c, ast.Call) and isinstance(c.func, ast.Attribute) and text(c.func.value) == "self" and c.keywords:
+            _d, h = ci.find_method(c.func.attr)
+            if h is None or h.args.kwarg is None:
+                continue
+            kwn = h.args.kwarg.arg
+            stores_all = False
+            for lp in [x for x in ast.walk(h) if isinstance(x, ast.For)]:
+                if text(lp.iter) == f"{kwn}.items()" and isinstance(lp.target, ast.Tuple) and len(lp.target.elts) == 2:
+                    kn, vn = text(lp.target.elts[0]), text(lp.target.elts[1])
+                    if any(isinstance(x, ast.Call) and isinstance(x.func, ast.Name) and x.func.id == "setattr" and len(x.args) == 3 and text(x.args[0]) == "self" and text(x.args[1]) == kn and text(x.args[2]) == vn for x in ast.walk(lp)):
+                        stores_all = True
+            if stores_all:
+                stored |= {k.arg for k in c.keywords if k.arg and isinstance(k.value, ast.Name) and k.value.id == k.arg}
     missing = [x for x in params if x not in stored]
+    # a parameter handed to some other call (a helper this rule cannot read) is not known to be dropped
+    handed = {x.id for c in own_nodes(fn) if isinstance(c, ast.Call) and text(c.func) not in ("locals",) and not text(c.func).startswith("logger.") for a in list(c.args) + [k.value for k in c.keywords] for x in ast.walk(a) if isinstance(x, ast.Name)}
+    if missing and all(x in handed for x in missing):
+        rep.note(f"N-R9 undecided: {missing} are handed to a helper the rule cannot read")
+        return
     if unknown and missing:
         rep.note(f"N-R9 undecided: constructor stores attributes through an unrecognised loop; not seen stored: {missing}")
         return
